@@ -1062,7 +1062,7 @@ class Corr:
             return content_string
 
         if print_range[1]:
-            print_range[1] += 1
+            print_range = [print_range[0], print_range[1] + 1]
         content_string += 'x0/a\tCorr(x0/a)\n------------------\n'
         for i, sub_corr in enumerate(self.content[print_range[0]:print_range[1]]):
             if sub_corr is None:
